@@ -14,6 +14,7 @@ pub mod c06_order;
 pub mod c07_flags;
 pub mod layers;
 pub mod rast;
+pub mod c11_buf;
 pub mod c12_tex;
 
 pub type MonFn = fn(&Cfg, &mut Report);
@@ -27,6 +28,7 @@ pub fn lookup(prop: &str) -> Option<MonFn> {
         "C05" => c05_frag::run,
         "C06" => c06_order::run,
         "C07" => c07_flags::run,
+        "C11" => c11_buf::run,
         "C12" => c12_tex::run,
         _ => return None,
     })
